@@ -800,6 +800,15 @@ def suite_plan(ctx, ciphers, macs, ci, mi):
 def compare(ctx, fn, ty, results, what):
     if not results:
         return
+    # the model is a function of the case input alone: evaluate each distinct (input, observed summary) once
+    seen = set()
+    uniq = []
+    for r in results:
+        k = (r[0], tuple(r[1]))
+        if k not in seen:
+            seen.add(k)
+            uniq.append(r)
+    results = uniq
     shard = max(200, -(-len(results) // 8))       # at most 8 case files: one round of parallel coqc
     try:
         bad = ctx.model_mismatches(fn, ty, [(i, s) for i, s, _ in results], shard=shard)
